@@ -70,6 +70,8 @@ class Engine:
         self.functions = []      # report records
         for name, bases in reg.classes.items():
             CL.add(name, bases)
+        for name in list(reg.dataclasses):
+            self.dataclass_fields(name)       # registers the class and its dataclass bases
         self._feas_ax = None
         self.h0 = Heap.initial("0")
         Heap.distinct_hook = self.refs_distinct
@@ -209,12 +211,14 @@ class Engine:
         if key in c:
             return True
         hyp = [is_ref(r.arg(0))] if z3.is_app(r) and r.decl().name() == "rv" else []
+        nkey = key + (len(st.pc),)
+        if nkey in c:
+            return False
         q = z3.And(hyp + [z3.Not(z3.And(r >= 0, r < bound))])
-        res = self._check(st, q) == z3.unsat or self._check(st, q, rel0=True) == z3.unsat or self._check(st, q, scale=8) == z3.unsat
-        if res:
-            c = dict(c)
-            c[key] = True
-            st.ghost["_mustc"] = c
+        res = self._check(st, q) == z3.unsat or self._check(st, q, rel0=True) == z3.unsat
+        c = dict(c)
+        c[key if res else nkey] = res      # a failed attempt is only remembered for this exact path condition
+        st.ghost["_mustc"] = c
         return res
 
     def refs_distinct(self, st, r1, r2):
@@ -235,12 +239,14 @@ class Engine:
             for r_ in (r1, r2):
                 if z3.is_app(r_) and r_.decl().name() == "rv":
                     hyp.append(is_ref(r_.arg(0)))
+            nkey = key + (len(st.pc),)
+            if nkey in c:
+                return False
             q = z3.And(hyp + [r1 == r2])
-            res = self._check(st, q) == z3.unsat or self._check(st, q, rel0=True) == z3.unsat or self._check(st, q, scale=8) == z3.unsat
-        if res:   # only proofs are cached: the path condition grows, a failed attempt may succeed later
-            c = dict(c)
-            c[key] = res
-            st.ghost["_mustc"] = c
+            res = self._check(st, q) == z3.unsat or self._check(st, q, rel0=True) == z3.unsat
+        c = dict(c)
+        c[key if res else key + (len(st.pc),)] = res   # a failed attempt is only remembered for this exact path condition
+        st.ghost["_mustc"] = c
         return res
 
     def feasible(self, st):
@@ -1052,6 +1058,8 @@ class Engine:
             ec.may_raise(z3.Or(z3.Not(is_obj(v)), z3.Not(h.dhas(r, key))), "AttributeError", line, "no attribute " + attr)
         else:
             ec.may_raise(z3.Not(is_ref(v)), "AttributeError", line, "attribute %s of a non-object" % attr)
+            # policy "assume": the attribute exists on every object it is read from (so the heap's closedness applies to it)
+            ec.assume(z3.Implies(is_ref(v), h.dhas(r, key)))
         return tV(h.dget(r, key))
 
     def ev_Subscript(self, e, ec):
@@ -2158,6 +2166,65 @@ class Engine:
         h = ec.st.heap
         return tV(z3.If(h.dhas(V.rv(v), k), h.dget(V.rv(v), k), d))
 
+    def me_update(self, recv, e, ec):
+        v = toV(recv)
+        if not self.must(ec.st, z3.And(is_ref(v), sub(typ(V.rv(v)), cid("dict")))):
+            return None
+        if len(e.args) != 1 or e.keywords:
+            raise OutOfSubset("dict.update form (line %d)" % e.lineno)
+        o = toV(self.mat(self.ev(e.args[0], ec), ec))
+        if not self.must(ec.st, z3.And(is_ref(o), sub(typ(V.rv(o)), cid("dict")))):
+            raise OutOfSubset("dict.update with an argument not known to be a dict (line %d)" % e.lineno)
+        if ec.guard:
+            raise OutOfSubset("conditional mutation inside an expression")
+        h = ec.st.heap
+        r, ro = V.rv(v), V.rv(o)
+        d0, d1 = self.dict_arrays(ec, r), self.dict_arrays(ec, ro)
+        k = z3.Const("k!", V)
+        nh, nv = fresh("upd_has", smt.ArrVB), fresh("upd_val", smt.ArrVV)
+        from .tr import forall as _forall
+        ec.st.assume(_forall([k], nh[k] == z3.Or(d0["dhas"][k], d1["dhas"][k]), [nh[k]]))
+        ec.st.assume(_forall([k], nv[k] == z3.If(d1["dhas"][k], d1["dval"][k], d0["dval"][k]), [nv[k]]))
+        d = dict(dhas=nh, dval=nv, dlen=fresh("upd_len", IntS), dkey=fresh("upd_key", smt.ArrIV), didx=fresh("upd_idx", smt.ArrVI))
+        if self.is_vm(ec):
+            r2 = self._vm_realloc(ec, r)
+            self._vm_assume_dict(ec, r2, d)
+            for f in dict_wf_at(self.h0, r2):
+                ec.st.assume(f)
+            return tV(V.none)
+        a2 = dict(h.a)
+        for nm in ("dhas", "dval", "dlen", "dkey", "didx"):
+            a2[nm] = z3.Store(h.a[nm], r, d[nm])
+        h.a = a2
+        for f in dict_wf_at(h, r):
+            ec.st.assume(f)
+        return tV(V.none)
+
+    def me_copy(self, recv, e, ec):
+        v = toV(recv)
+        if e.args:
+            return None
+        h = ec.st.heap
+        if self.must(ec.st, z3.And(is_ref(v), sub(typ(V.rv(v)), cid("dict")))):
+            r0 = V.rv(v)
+            d = self.dict_arrays(ec, r0)
+            r = self.new_ref(ec, "dict")
+            if self.is_vm(ec):
+                self._init_done(ec, r)
+                self._vm_assume_dict(ec, r, d)
+                return tV(V.ref(r))
+            a2 = dict(h.a)
+            for nm in ("dhas", "dval", "dlen", "dkey", "didx"):
+                a2[nm] = z3.Store(h.a[nm], r, d[nm])
+            h.a = a2
+            return tV(V.ref(r))
+        if self.must(ec.st, smt.is_kind(v, "list")):
+            r0 = V.rv(v)
+            r = self.new_ref(ec, "list")
+            self.list_set_all(ec, r, h.llen(r0), h.sel("lel", r0))
+            return tV(V.ref(r))
+        return None
+
     def me_add(self, recv, e, ec):
         v = toV(recv)
         if not self.must(ec.st, smt.is_kind(v, "set")):
@@ -2190,7 +2257,73 @@ class Engine:
             self.mat(self.ev(k.value, ec), ec)
         return self.opaque_effect(ec, e.lineno, "call of the callable `%s`" % ast.unparse(e.func)[:40])
 
+    def dataclass_fields(self, cname):
+        """[(field, default AST or None)] of a repository dataclass, bases first (read from the real class definitions)"""
+        if not hasattr(self, "_dcf"):
+            self._dcf = {}
+        if cname in self._dcf:
+            return self._dcf[cname]
+        path = self.reg.dataclasses[cname]
+        src, mod = source.load_module(path)
+        cls = [n for n in ast.walk(mod) if isinstance(n, ast.ClassDef) and n.name == cname]
+        if not cls:
+            raise CheckerError("dataclass %s not found in %s" % (cname, path))
+        cls = cls[0]
+        fields = []
+        bases = []
+        for b in cls.bases:
+            bn = ast.unparse(b)
+            if bn in self.reg.dataclasses:
+                fields += self.dataclass_fields(bn)
+                bases.append(bn)
+        for st_ in cls.body:
+            if isinstance(st_, ast.AnnAssign) and isinstance(st_.target, ast.Name):
+                fields = [f for f in fields if f[0] != st_.target.id] + [(st_.target.id, st_.value)]
+        CL.add(cname, bases)
+        self._dcf[cname] = fields
+        return fields
+
+    def call_dataclass(self, cname, e, ec):
+        fields = self.dataclass_fields(cname)
+        args, kwargs = self.args_of(e, ec)
+        if len(args) > len(fields):
+            raise CheckerError("too many positional arguments for dataclass %s" % cname)
+        vals = {}
+        for (fn_, _), a in zip(fields, args):
+            vals[fn_] = a
+        for k, v in kwargs.items():
+            if k not in [f for f, _ in fields]:
+                raise CheckerError("unknown field %s of dataclass %s" % (k, cname))
+            vals[k] = v
+        pairs = []
+        for fn_, dflt in fields:
+            if fn_ in vals:
+                v = vals[fn_]
+            elif dflt is None:
+                raise CheckerError("missing argument %s for dataclass %s (line %d)" % (fn_, cname, e.lineno))
+            elif isinstance(dflt, ast.Call) and ast.unparse(dflt.func) == "field":
+                fac = [k.value for k in dflt.keywords if k.arg == "default_factory"]
+                dfl = [k.value for k in dflt.keywords if k.arg == "default"]
+                if fac and ast.unparse(fac[0]) == "list":
+                    v = self.alloc_list([], ec)
+                elif fac and ast.unparse(fac[0]) == "dict":
+                    v = self.alloc_dict([], ec)
+                elif fac and ast.unparse(fac[0]) == "set":
+                    v = self.alloc_dict([], ec, "set")
+                elif dfl:
+                    v = self.ev(dfl[0], ec)
+                else:
+                    v = tV(fresh("dcdefault", V))
+            else:
+                v = self.ev(dflt, ec)
+            pairs.append((T("s", z3.StringVal(fn_)), v))
+        self.assumptions.add("A-DATACLASS: constructor of dataclass %s sets exactly its declared fields (read from the class definition); "
+                             "a __post_init__ is not modelled" % cname)
+        return self.alloc_dict(pairs, ec, cname)
+
     def call_named(self, name, recv, e, ec):
+        if recv is None and name in self.reg.dataclasses and name not in ec.st.env:
+            return self.call_dataclass(name, e, ec)
         c = self.resolve(name, recv)
         if c is not None:
             return self.call_contract(c, recv, e, ec)
